@@ -188,6 +188,9 @@ class PrimMixin:
             else:
                 raise Unsupported("isinstance class %r" % (c,), node)
         k = kind_of(v)
+        if isinstance(v, z3.ExprRef) and v.get_id() in st.ghost.get("strterms", ()):
+            # element read out of a string / bytes array (ordered elements tagged "str")
+            return bool(names & {"str", "bytes", "basestring", "str_", "bytes_"})
         if isinstance(v, bool) or k == "bool":
             return bool(names & {"bool", "int"})
         if k == "int":
@@ -883,9 +886,10 @@ class PrimMixin:
         inv = fresh("argsort!inv", z3.ArraySort(I, I))
         i, j = fresh("i", I), fresh("j", I)
         self.assume(st, z3.ForAll([i], z3.Implies(z3.And(i >= 0, i < n), z3.And(s[i] >= 0, s[i] < n, inv[s[i]] == i))))
-        body = z3.Implies(z3.And(j >= 0, j < n), z3.And(inv[j] >= 0, inv[j] < n, s[inv[j]] == j))
+        tj = z3.simplify(t[j])       # beta-reduces a select on a lambda (gathered / sliced arrays)
+        body = z3.Implies(z3.And(j >= 0, j < n), z3.And(inv[j] >= 0, inv[j] < n, s[inv[j]] == j, t[s[inv[j]]] == tj))
         try:
-            self.assume(st, z3.ForAll([j], body, patterns=[inv[j], t[j]]))
+            self.assume(st, z3.ForAll([j], body, patterns=[inv[j], tj]))
         except z3.Z3Exception:
             self.assume(st, z3.ForAll([j], body))
         self.assume(st, z3.ForAll([i, j], z3.Implies(z3.And(i >= 0, i < j, j < n), t[s[i]] <= t[s[j]])))
@@ -941,7 +945,10 @@ class PrimMixin:
         self.assume(st, z3.ForAll([i, j], z3.Implies(z3.And(i >= 0, i < j, j < m), u[i] < u[j])))
         self.assume(st, z3.ForAll([i], z3.Implies(z3.And(i >= 0, i < m), z3.And(src[i] >= 0, src[i] < n, t[src[i]] == u[i]))))
         self.assume(st, z3.ForAll([j], z3.Implies(z3.And(j >= 0, j < n), z3.And(pos[j] >= 0, pos[j] < m, u[pos[j]] == t[j]))))
-        self.use("numpy.unique: strictly increasing, sound and complete w.r.t. the input values")
+        i2, j2 = fresh("i", I), fresh("j", I)
+        self.assume(st, (m == n) == z3.ForAll([i2, j2], z3.Implies(z3.And(i2 >= 0, i2 < j2, j2 < n), t[i2] != t[j2])))
+        self.use("numpy.unique: strictly increasing, sound and complete w.r.t. the input values; as many results as inputs "
+                 "exactly when the input values are pairwise distinct (pigeonhole, assumed)")
         return st.alloc(HArr(h.kind, m, u, fresh=True))
 
     def np_searchsorted(self, args, kw, st, fr, node):
@@ -949,28 +956,36 @@ class PrimMixin:
         a, v = args[0], args[1]
         side = kw.get("side", args[2] if len(args) > 2 else "left")
         sorter = kw.get("sorter", args[3] if len(args) > 3 else None)
-        n, t = self.arr_term(st, a)
+        n, t0 = self.arr_term(st, a)
         n = to_z3(n, "int")
         if sorter is not None:
             _, srt = self.arr_term(st, sorter)
-            k0 = z3.Int("i!ss")
-            t = z3.Lambda([k0], t[srt[k0]])
+
+            def t(k):
+                return t0[srt[k]]
+        else:
+            def t(k):
+                return t0[k]
         i = fresh("i", I)
         left = side == "left"
+        if not fr.spec:
+            i2, j2 = fresh("i", I), fresh("j", I)
+            self.oblige(st, z3.ForAll([i2, j2], z3.Implies(z3.And(i2 >= 0, i2 < j2, j2 < n), t(i2) <= t(j2))), "safety",
+                        "searchsorted-array-is-sorted", node, fr)
 
         def facts(r, x):
-            lo = z3.ForAll([i], z3.Implies(z3.And(i >= 0, i < r), (t[i] < x) if left else (t[i] <= x)))
-            hi = z3.ForAll([i], z3.Implies(z3.And(i >= r, i < n), (t[i] >= x) if left else (t[i] > x)))
+            lo = z3.ForAll([i], z3.Implies(z3.And(i >= 0, i < r), (t(i) < x) if left else (t(i) <= x)))
+            hi = z3.ForAll([i], z3.Implies(z3.And(i >= r, i < n), (t(i) >= x) if left else (t(i) > x)))
             return z3.And(r >= 0, r <= n, lo, hi)
-        self.use("numpy.searchsorted(side=%s): insertion point in a sorted array (requires sortedness)" % side)
+        self.use("numpy.searchsorted(side=%s): insertion point in a sorted array (sortedness is an obligation at the call site)" % side)
         if self.is_arr(v, st):
             m, tv = self.arr_term(st, v)
             r = fresh("searchsorted", z3.ArraySort(I, I))
             k = fresh("k", I)
             lo = z3.ForAll([k, i], z3.Implies(z3.And(k >= 0, k < to_z3(m, "int"), i >= 0, i < r[k]),
-                                              (t[i] < tv[k]) if left else (t[i] <= tv[k])))
+                                              (t(i) < tv[k]) if left else (t(i) <= tv[k])))
             hi = z3.ForAll([k, i], z3.Implies(z3.And(k >= 0, k < to_z3(m, "int"), i >= r[k], i < n),
-                                              (t[i] >= tv[k]) if left else (t[i] > tv[k])))
+                                              (t(i) >= tv[k]) if left else (t(i) > tv[k])))
             rng = z3.ForAll([k], z3.Implies(z3.And(k >= 0, k < to_z3(m, "int")), z3.And(r[k] >= 0, r[k] <= n)))
             self.assume(st, z3.And(lo, hi, rng))
             return st.alloc(HArr("int", m, r, fresh=True))
@@ -1065,10 +1080,25 @@ class PrimMixin:
         a = args[0]
         self.frame_check(a, st, fr, node)
         n, t = self.arr_term(st, a)
+        n = to_z3(n, "int")
         s = self._argsort(a, st, fr, node, False)
         _, sv = self.arr_term(st, s)
-        i = z3.Int("i!s")
-        self.write_all(a, z3.Lambda([i], t[sv[i]]), st)
+        inv = st.get(s).inv
+        kind = st.get(a).kind
+        new = fresh("sorted", z3.ArraySort(I, SORTS[kind]))
+        i, j = fresh("i", I), fresh("j", I)
+        # the sorted content as a first-class array: ordered, every new cell is an old cell and every old cell a new one
+        self.assume(st, z3.ForAll([i], z3.Implies(z3.And(i >= 0, i < n), z3.And(sv[i] >= 0, sv[i] < n, new[i] == z3.simplify(t[sv[i]]))),
+                                  patterns=[new[i]]))
+        tj = z3.simplify(t[j])
+        try:
+            self.assume(st, z3.ForAll([j], z3.Implies(z3.And(j >= 0, j < n), z3.And(inv[j] >= 0, inv[j] < n, new[inv[j]] == tj)),
+                                      patterns=[tj]))
+        except z3.Z3Exception:
+            self.assume(st, z3.ForAll([j], z3.Implies(z3.And(j >= 0, j < n), z3.And(inv[j] >= 0, inv[j] < n, new[inv[j]] == tj))))
+        i2, j2 = fresh("i", I), fresh("j", I)
+        self.assume(st, z3.ForAll([i2, j2], z3.Implies(z3.And(i2 >= 0, i2 < j2, j2 < n), new[i2] <= new[j2])))
+        self.write_all(a, new, st)
         return None
 
     def nd_fill(self, args, kw, st, fr, node):
